@@ -142,6 +142,7 @@ package keeper
 //@   ensures [C03] #c03-cr-defined: ok ==> crOf(k, ctx, msg.ExtendedPairVaultId, v1).1 == nil
 //@   ensures [C03] #c03-min-cr: ok ==> crOf(k, ctx, msg.ExtendedPairVaultId, v1).0 >= ep.MinCr
 //@   ensures [C03] #c03-ceiling: ok ==> mapMint(k, ctx, msg.AppId, msg.ExtendedPairVaultId) <= ep.DebtCeiling
+//@   ensures [C03] #c03-counter-tracks-principal: ok ==> mapMint(k, ctx, msg.AppId, msg.ExtendedPairVaultId) == old(mapMint(k, ctx, msg.AppId, msg.ExtendedPairVaultId)) + msg.Amount && v1.AmountOut == v0.AmountOut + msg.Amount
 //@   fails_if [C03] #c03-price-inactive: !(K("market").GetTwa(ctx, pair.AssetIn).1 && K("market").GetTwa(ctx, pair.AssetIn).0.IsPriceActive)
 //@   ensures [C12] #c12-owner: ok ==> vf0 && msg.From == v0.Owner
 //@   ensures [C12] #c12-own-app: ok ==> v0.AppId == msg.AppId && v0.ExtendedPairVaultID == msg.ExtendedPairVaultId
@@ -184,6 +185,7 @@ package keeper
 //@   ensures [C02] #c02-interest-to-collector: ok ==> bal(cm, dout) == old(bal(cm, dout)) + msg.Amount - retired
 //@   ensures [C13] #c13-interest-recorded: ok ==> nf(k, ctx, msg.AppId, pair.AssetOut) == old(nf(k, ctx, msg.AppId, pair.AssetOut)) + msg.Amount - retired
 //@   ensures [C03] #c03-floor: ok && retired > 0 ==> v1.AmountOut >= ep.DebtFloor
+//@   ensures [C03] #c03-counter-tracks-principal: ok ==> mapMint(k, ctx, msg.AppId, msg.ExtendedPairVaultId) == old(mapMint(k, ctx, msg.AppId, msg.ExtendedPairVaultId)) - retired
 //@   ensures [C12] #c12-owner: ok ==> vf0 && msg.From == v0.Owner
 //@   ensures [C12] #c12-own-app: ok ==> v0.AppId == msg.AppId && v0.ExtendedPairVaultID == msg.ExtendedPairVaultId
 //@   fails_if [C14] #c14-breaker: k.esm.GetKillSwitchData(ctx, msg.AppId).0.BreakerEnable
@@ -195,7 +197,7 @@ package keeper
 // ---- MsgClose ----
 
 //@ func (k msgServer) MsgClose
-//@   property C01, C02, C12, C13, C14
+//@   property C01, C02, C03, C12, C13, C14
 //@   let v0 = k.GetVault(ctx, msg.UserVaultId).0
 //@   let ep = k.asset.GetPairsVault(ctx, msg.ExtendedPairVaultId).0
 //@   let pair = k.asset.GetPair(ctx, ep.PairId).0
@@ -226,6 +228,7 @@ package keeper
 //@   ensures [C02] #c02-burn-is-principal: ok ==> supply(dout) == old(supply(dout)) - v0.AmountOut && (forall d :: d != dout ==> supply(d) == old(supply(d)))
 //@   ensures [C02] #c02-user-pays-debt: ok ==> fees >= 0 && bal(user, dout) == old(bal(user, dout)) - v0.AmountOut - fees
 //@   ensures [C13] #c13-fees-recorded: ok ==> nf(k, ctx, msg.AppId, pair.AssetOut) == old(nf(k, ctx, msg.AppId, pair.AssetOut)) + fees
+//@   ensures [C03] #c03-counter-tracks-principal: ok ==> mapMint(k, ctx, msg.AppId, msg.ExtendedPairVaultId) == old(mapMint(k, ctx, msg.AppId, msg.ExtendedPairVaultId)) - v0.AmountOut
 //@   ensures [C12] #c12-owner: ok ==> vf0 && msg.From == v0.Owner
 //@   ensures [C12] #c12-own-app: ok ==> v0.AppId == msg.AppId && v0.ExtendedPairVaultID == msg.ExtendedPairVaultId
 //@   fails_if [C14] #c14-breaker: k.esm.GetKillSwitchData(ctx, msg.AppId).0.BreakerEnable
@@ -267,10 +270,12 @@ package keeper
 //@   ensures [C02] #c02-minted-is-principal: ok ==> supply(dout) == old(supply(dout)) + msg.AmountOut && (forall d :: d != dout ==> supply(d) == old(supply(d)))
 //@   ensures [C02] #c02-user-gets-principal-less-fee: ok ==> bal(user, dout) == old(bal(user, dout)) + msg.AmountOut - fee
 //@   ensures [C02] #c02-fee-to-collector: ok ==> bal(cm, dout) == old(bal(cm, dout)) + fee
+//@   ensures [C02] #c02-no-principal-overwritten: ok ==> k.GetVault(ctx, newid).1 && nv.AmountOut == msg.AmountOut && (forall j :: j != newid ==> k.GetVault(ctx, j) == old(k.GetVault(ctx, j)))
 //@   ensures [C13] #c13-fee-recorded: ok ==> nf(k, ctx, msg.AppId, pair.AssetOut) == old(nf(k, ctx, msg.AppId, pair.AssetOut)) + fee
 //@   ensures [C03] #c03-min-cr: ok ==> k.CalculateCollateralizationRatio(ctx, msg.ExtendedPairVaultId, msg.AmountIn, msg.AmountOut).1 == nil && k.CalculateCollateralizationRatio(ctx, msg.ExtendedPairVaultId, msg.AmountIn, msg.AmountOut).0 >= ep.MinCr
 //@   ensures [C03] #c03-floor: ok ==> msg.AmountOut >= ep.DebtFloor
 //@   ensures [C03] #c03-ceiling: ok ==> mapMint(k, ctx, msg.AppId, msg.ExtendedPairVaultId) <= ep.DebtCeiling
+//@   ensures [C03] #c03-counter-tracks-principal: ok ==> mapMint(k, ctx, msg.AppId, msg.ExtendedPairVaultId) == ite(old(k.GetAppExtendedPairVaultMappingData(ctx, msg.AppId, msg.ExtendedPairVaultId).1), old(mapMint(k, ctx, msg.AppId, msg.ExtendedPairVaultId)), 0) + msg.AmountOut && nv.AmountOut == msg.AmountOut
 //@   fails_if [C03] #c03-price-inactive: !(K("market").GetTwa(ctx, pair.AssetIn).1 && K("market").GetTwa(ctx, pair.AssetIn).0.IsPriceActive)
 //@   fails_if [C14] #c14-breaker: k.esm.GetKillSwitchData(ctx, msg.AppId).0.BreakerEnable
 //@   fails_if [C14] #c14-esm: k.esm.GetESMStatus(ctx, msg.AppId).1 && k.esm.GetESMStatus(ctx, msg.AppId).0.Status
